@@ -57,12 +57,25 @@ Theorem C16_find_forward_nth : forall ceq (d : doc) (sub : str) (icp ic : bool) 
 Proof. exact doc_find_nth. Qed.
 Print Assumptions C16_find_forward_nth.
 
-(* Document.find_backwards with a count >= 1: the count-th match of the same
-   scan run over the MIRRORED text before the cursor for the mirrored needle
-   (that is the code), None exactly when that scan has fewer matches; what is
-   returned is a real occurrence lying wholly before the cursor.  (The scan
-   order in mirrored coordinates is "nearest first"; stating it in forward
-   coordinates for count > 1 is left open.) *)
+(* Document.find_backwards with a count >= 1, in FORWARD coordinates: the
+   count-th match of the non-overlapping scan that runs backwards from the
+   cursor - [nth_match_back]: matches lie wholly before the cursor; after a
+   match at p0 the scan resumes with matches ending at or before
+   p0 + |needle| - max 1 |needle| (= p0 for a non-empty needle) - and None
+   exactly when that scan has fewer matches. *)
+Theorem C16_find_backward_nth_fwd : forall ceq (d : doc) (sub : str) (ic : bool) (count : Z),
+  0 <= dcur d <= len (dtext d) -> 1 <= count ->
+  match doc_find_backwards ceq d sub ic count with
+  | Some r => 0 <= dcur d + r /\
+              nth_match_back ceq ic sub (dtext d) (Z.to_nat (dcur d)) (Z.to_nat (count - 1)) (Z.to_nat (dcur d + r))
+  | None => forall p, ~ nth_match_back ceq ic sub (dtext d) (Z.to_nat (dcur d)) (Z.to_nat (count - 1)) p
+  end.
+Proof. exact doc_find_backwards_nth_fwd. Qed.
+Print Assumptions C16_find_backward_nth_fwd.
+
+(* The same in the coordinates of the code: the count-th match of the forward
+   scan over the MIRRORED text before the cursor for the mirrored needle
+   (lemmas nth_to_back / back_to_nth connect the two). *)
 Theorem C16_find_backward_nth : forall ceq (d : doc) (sub : str) (ic : bool) (count : Z),
   0 <= dcur d <= len (dtext d) -> 1 <= count ->
   let B := firstn (Z.to_nat (dcur d)) (dtext d) in
@@ -247,6 +260,39 @@ Theorem C16_preview_is_accept_key : forall ceq s,
 Proof. exact enter_preview. Qed.
 Print Assumptions C16_preview_is_accept_key.
 
+(* The preview and the landing position of accept are functions of exactly
+   the same inputs - main buffer (working lines, index, cursor), search-field
+   text, direction, ignore-case (and whether a search is active): two sessions
+   that agree on these show the same document and accept to the same place,
+   whatever else differs (stored search text, field cursor, editing mode).  A
+   cache of the preview must therefore be keyed by all of them ... *)
+Theorem C16_preview_accept_same_inputs : forall ceq s1 s2,
+  main s1 = main s2 -> field s1 = field s2 -> ss_dir s1 = ss_dir s2 -> ign s1 = ign s2 ->
+  searching s1 = searching s2 ->
+  preview ceq s1 = preview ceq s2 /\
+  (field s1 <> [] -> main (accept_search ceq s1) = main (accept_search ceq s2)).
+Proof. exact preview_accept_inputs. Qed.
+Print Assumptions C16_preview_accept_same_inputs.
+
+(* ... and the direction really is one of them: sessions differing in nothing
+   but the direction show different documents. *)
+Theorem C16_preview_needs_direction :
+  exists s1 s2, main s1 = main s2 /\ field s1 = field s2 /\ ign s1 = ign s2 /\ searching s1 = true /\
+    searching s2 = true /\ ss_text s1 = ss_text s2 /\ ss_dir s1 <> ss_dir s2 /\
+    preview ceq_tab s1 <> preview ceq_tab s2.
+Proof. exact preview_needs_direction. Qed.
+Print Assumptions C16_preview_needs_direction.
+
+(* With the preview-side repair of C16-F1
+   (fixes/C16-preview-remembered-search-text.patch: an empty field previews the
+   remembered search text) the preview is where accept goes for EVERY state of
+   the search field.  [preview_repaired] is the patched function, not HEAD. *)
+Theorem C16_preview_repaired_is_accept : forall ceq s,
+  Inv (main s) -> searching s = true ->
+  bdoc (main (accept_search ceq s)) = preview_repaired ceq s.
+Proof. exact accept_preview_repaired. Qed.
+Print Assumptions C16_preview_repaired_is_accept.
+
 (* ... but NOT when nothing is typed and a previous search text is remembered
    (finding C16-F1): the display shows the current position, Enter re-applies
    the remembered search. *)
@@ -337,6 +383,25 @@ Theorem C16_star_lands : forall ceq s c w,
   end.
 Proof. exact star_lands. Qed.
 Print Assumptions C16_star_lands.
+
+(* Two BufferControls sharing one search field (one SearchState): whatever
+   search key is pressed, the buffer of the control that is not being searched
+   and the document it displays stay as they are; moving the focus (possible
+   only while not searching) swaps the roles and carries the shared search
+   state along - so every theorem above about [key_step] applies to the
+   focused control's session [cs]. *)
+Theorem C16_shared_other_untouched : forall ceq s k s',
+  key_step2 ceq s (K2 k) = Some s' ->
+  other s' = other s /\ focus_a s' = focus_a s /\ preview_other s' = preview_other s.
+Proof. exact shared_other_untouched. Qed.
+Print Assumptions C16_shared_other_untouched.
+
+Theorem C16_shared_switch : forall ceq s s',
+  key_step2 ceq s KSwitch = Some s' ->
+  searching (cs s) = false /\ main (cs s') = other s /\ other s' = main (cs s) /\
+  ss_text (cs s') = ss_text (cs s) /\ ss_dir (cs s') = ss_dir (cs s) /\ searching (cs s') = false.
+Proof. exact shared_switch. Qed.
+Print Assumptions C16_shared_switch.
 
 (* Non-vacuity: a concrete buffer meets Inv; a forward search finds nothing
    ahead and wraps around to the start of its own line (line 0); from cursor 0
